@@ -35,7 +35,8 @@ MANIFEST = {
             'with satisfiability for all well-formed strings and (thorough) all '
             '3.26 M strings over 0-9*: up to length 6; or-lists and repeated use '
             'are observed on the running VM at the clock boundary. Exhaustive '
-            'for the table, sampled for or-lists beyond the reduced alphabet.',
+            'for the table, sampled for or-lists beyond the reduced alphabet.'
+            ' Or-lists run to 33 patterns.',
     'note': 'Trusted: the 10-line reference matcher; the minute-stepping virtual '
             'clock used to drive Clock.wait_until. `*:*` is not judged.',
 }
